@@ -100,6 +100,24 @@ def check(case):
         for position, i in enumerate(order):
             back[i] = float(mixed[position])
         views.append(('permuted array', back))
+    # whole-millimetre levels written as integers (np.arange(-400, 201,
+    # 100), a list of ints) are the same levels
+    whole = sorted({float(math.floor(v)) for v in levels
+                    if math.floor(v) >= z[0] - 400.0})
+    if whole:
+        as_float = [float(guarded(T, v)) for v in whole]
+        for name, arg in (
+                ('integer array', np.array([int(v) for v in whole])),
+                ('list of ints', [int(v) for v in whole])):
+            values = np.asarray(guarded(T, arg), dtype=float)
+            if values.shape != (len(whole),):
+                raise Violation('array-shape', repr(values.shape))
+            for level, s, a in zip(whole, as_float, values.tolist()):
+                if not abs(s - a) <= 1e-12 * abs(s):
+                    raise Violation(
+                        'integer-typed-level-differs',
+                        '{} at {}: {!r}, scalar call at {!r}: {!r}'.format(
+                            name, int(level), a, level, s))
     # "the same values": the array is today a loop over the scalar code;
     # an implementation that integrates in another order may differ in the
     # last places, one that differs by more does not give the same values
